@@ -6,21 +6,12 @@ use rspirv::binary::{DecodeError, Decoder};
 use serde_json::{json, Value};
 use std::io::BufRead;
 
-/// DecodeError -> ["Err", kind, offset, (word)] via its derived Debug text.
+/// DecodeError -> ["Err", kind, offset, (word, enum kind)] by variant (generated match: never through Debug / Display text).
 pub fn j_decode_err(e: &DecodeError) -> Value {
-    let s = format!("{:?}", e);
-    let (name, rest) = s.split_once('(').unwrap_or((&s, ""));
-    let rest = rest.trim_end_matches(')');
-    let mut parts = rest.splitn(2, ", ");
-    let off: usize = parts.next().unwrap_or("0").parse().unwrap_or(usize::MAX);
-    let second = parts.next();
-    if name == "DecodeStringFailed" {
-        json!(["Err", name, jn(off)])
-    } else if let Some(w) = second {
-        let kind = name.strip_suffix("Unknown").unwrap_or(name);
-        json!(["Err", "Unknown", jn(off), jw(w.parse::<u32>().unwrap_or(0)), kind])
-    } else {
-        json!(["Err", name, jn(off)])
+    let (name, off, word) = crate::gen::errors::decode_err_parts(e);
+    match word {
+        Some(w) if name.ends_with("Unknown") => json!(["Err", "Unknown", jn(off), jw(w), name.strip_suffix("Unknown").unwrap_or(name)]),
+        _ => json!(["Err", name, jn(off)]),
     }
 }
 
